@@ -44,3 +44,23 @@ claim("C03", "other",
       "index-set alignment and loop-domain rules (R-ALIGN, R-LOOPDOM), call-site argument roles (R-PBC), dispatcher table, "
       "save-site ordering (R-SAVE)",
       "DESIGN.md section 4, C03")
+
+claim("C18", "other",
+      "Decides, for all 127 functions of the package and every input, the structural core of purity: (i) no mutating construct "
+      "(subscript store, in-place operator on an array alias, in-place method, out=, shuffle, or a callee whose summary "
+      "mutates that parameter) targets memory that may alias a parameter, a constructor argument (via self) or a module "
+      "global - interprocedural may-alias analysis with view/copy semantics of numpy indexing; default-argument arrays count "
+      "as parameters; (ii) no attribute store on a frozen dataclass instance; (iii) print-option dependent formatting is "
+      "dominated by set_printoptions(threshold=inf, linewidth=inf), no RNG, no clock value reaches results, no global "
+      "writes; (iv) each of the 64 np.save/np.savetxt/to_csv sites has path and data in the right slots, a file requested "
+      "through the function's own path parameter holds an object the call returns, and that object is not modified between "
+      "save and return. Not decided: bit-identity of library results, dependence of methods on attributes set by earlier "
+      "methods (by design).",
+      "Assumptions (also written to the evidence): third-party calls return fresh objects and do not mutate their arguments "
+      "except for the tabled view-returning / mutating functions in pmsa/effects.py; advanced (boolean / integer-array) "
+      "indexing on a read yields a copy, basic indexing a view; names annotated int/float/str/bool are immutable scalars. "
+      "A mutation through an unanalysable alias (getattr, exec) would be missed; none exists in the package.",
+      "interprocedural may-alias + effect summaries on the value graph (R-EFFECT), frozen-dataclass typestate (R-FROZEN), "
+      "dominance of ambient-state writers (R-AMBIENT), save-site role/identity/ordering rules (R-SAVE); synthetic canaries "
+      "in the thorough tier",
+      "DESIGN.md section 4, C18")
